@@ -94,7 +94,7 @@ def run(tier, seed):
     return st.run_structural(
         "C02", tier, seed, "ZeepVerif.Props.C02", "ZeepVerif/Audit/C02.lean",
         [("gen", 250, 6000), ("gencollide", 60, 1500), ("gentopo", 60, 1500), ("genplain", 60, 1500)], oracle, projection, CHECKER, extra=typed_driver,
-        extra_props=[("ZeepVerif.Props.C02Read", "ZeepVerif/Audit/C02Read.lean"), ("ZeepVerif.Props.C02All", "ZeepVerif/Audit/C02All.lean"), ("ZeepVerif.Props.CpxAll", "ZeepVerif/Audit/CpxAll.lean"), ("ZeepVerif.Props.DocAll", "ZeepVerif/Audit/DocAll.lean")],
+        extra_props=[("ZeepVerif.Props.C02Read", "ZeepVerif/Audit/C02Read.lean"), ("ZeepVerif.Props.C02All", "ZeepVerif/Audit/C02All.lean"), ("ZeepVerif.Props.CpxAll", "ZeepVerif/Audit/CpxAll.lean"), ("ZeepVerif.Props.DocAll", "ZeepVerif/Audit/DocAll.lean"), ("ZeepVerif.Props.C02Field", "ZeepVerif/Audit/C02Field.lean")],
         note_assumptions=[
             "Inflector 0.11.4 to_pascal_case/to_snake_case transcribed in Lean for ASCII names (validated by the byte comparison on every run)",
             "the reference mapping Spec.Ref (DESIGN.md 2.3) is the statement's 'documented Rust counterpart'",
